@@ -90,6 +90,10 @@ def _spec(mname, pal=0):
         cfg = {'topo': 'cycle_tail', 'hier': 'cycG', 'kinds': 'mix1', 'nl': 'NLBGS', 'ln': 'Direct',
                'wiring': 'conn_list'}
     cfg['palette'] = pal
+    # solver scaling on two outputs: recorded values are the values a user reads from the model
+    # (physical), whatever the internal scaled state is at the time of recording
+    cfg['solver_scaling'] = {'c2.y': {'ref': 4.0, 'ref0': 0.5, 'res_ref': 8.0},
+                             'c1.y': {'ref': [2.0, 0.25, 4.0]}}
     spec, why = models.spec_from_config(cfg)
     # one scalar objective so that optimizers can run; the other responses stay constraints
     spec['responses'][0]['type'] = 'obj'
@@ -159,13 +163,21 @@ def _shadow_class():
             self.events = []
             self.model = None
 
-        def _snap(self):
+        def _snap(self, scaled_state=True):
+            # physical values of every variable, whatever part of the vectors happens to be in the
+            # scaled state at this moment (tracked per entry by _ScaleTracker)
             m = self.model
-            with m._unscaled_context(outputs=[m._outputs], residuals=[m._residuals]):
-                outs = {n: np.array(v) for n, v in m._outputs._abs_item_iter(flat=False)}
-                res = {n: np.array(v) for n, v in m._residuals._abs_item_iter(flat=False)}
-                ins = {n: np.array(v) for n, v in m._inputs._abs_item_iter(flat=False)}
-            return {'output': outs, 'residual': res, 'input': ins}
+            out = {}
+            for kind, vec in (('output', m._outputs), ('residual', m._residuals)):
+                raw = vec.asarray().copy()
+                phys = _TRACKER.physical(kind, vec, raw)
+                d = {}
+                for n, a, b in vec.ranges():
+                    shape = np.shape(vec._abs_get_val(n, False))
+                    d[n] = phys[a:b].reshape(shape)
+                out[kind] = d
+            out['input'] = {n: np.array(v) for n, v in m._inputs._abs_item_iter(flat=False)}
+            return out
 
         def startup(self, recording_requester, comm=None):
             super().startup(recording_requester, comm)
@@ -174,10 +186,10 @@ def _shadow_class():
             return self._iteration_coordinate
 
         def record_iteration_driver(self, recording_requester, data, metadata):
-            self.events.append(('driver', 'driver', self._coord(metadata), self._snap()))
+            self.events.append(('driver', 'driver', self._coord(metadata), self._snap(False)))
 
         def record_iteration_problem(self, recording_requester, data, metadata):
-            self.events.append(('problem', 'problem', metadata['name'], self._snap()))
+            self.events.append(('problem', 'problem', metadata['name'], self._snap(False)))
 
         def record_iteration_system(self, recording_requester, data, metadata):
             src = 'root' + ('.' + recording_requester.pathname if recording_requester.pathname
@@ -207,6 +219,63 @@ def _shadow_class():
 
 
 _SHADOW = None
+
+
+def _addr(a):
+    return a.__array_interface__['data'][0]
+
+
+class _ScaleTracker(object):
+    """Observes every scale_to_norm / scale_to_phys call on nonlinear vectors and keeps, per entry
+    of the root output and residual vectors, whether it currently holds a scaled value."""
+
+    def __init__(self):
+        self.events = []
+        self.installed = False
+
+    def install(self):
+        if self.installed:
+            return
+        from openmdao.vectors.default_vector import DefaultVector
+        tracker = self
+        o_norm, o_phys = DefaultVector.scale_to_norm, DefaultVector.scale_to_phys
+
+        def scale_to_norm(vec, mode='fwd'):
+            o_norm(vec, mode)
+            tracker.note(vec, True)
+
+        def scale_to_phys(vec, mode='fwd'):
+            o_phys(vec, mode)
+            tracker.note(vec, False)
+        DefaultVector.scale_to_norm = scale_to_norm
+        DefaultVector.scale_to_phys = scale_to_phys
+        self.installed = True
+
+    def reset(self):
+        self.events = []
+
+    def note(self, vec, scaled):
+        if vec._name == 'nonlinear' and vec._kind in ('output', 'residual'):
+            a = vec.asarray()
+            self.events.append((vec._kind, _addr(a), a.size, a.itemsize, scaled))
+
+    def physical(self, kind, root, raw):
+        base, n = _addr(root.asarray()), raw.size
+        mask = np.zeros(n, dtype=bool)
+        for k, addr, size, isz, scaled in self.events:
+            off = (addr - base) // isz
+            if k == kind and 0 <= off and off + size <= n:
+                mask[off:off + size] = scaled
+        if not mask.any():
+            return raw
+        scaler, adder = root._scaling
+        phys = raw * scaler
+        if adder is not None:
+            phys = phys + adder
+        return np.where(mask, phys, raw)
+
+
+_TRACKER = _ScaleTracker()
 
 
 def run_scenario(sc, keep_prob=False):
@@ -250,6 +319,8 @@ def run_scenario(sc, keep_prob=False):
             for k, v in cur.items():
                 o.recording_options[k] = v
             opts[pt] = cur
+    _TRACKER.install()
+    _TRACKER.reset()
     with contextlib.redirect_stdout(buf), contextlib.redirect_stderr(buf):
         prob, info = ir.build(spec, before_setup=before)
         shadow.model = prob.model
